@@ -361,7 +361,7 @@ func writeValue(buf *bytes.Buffer, v value) {
 		buf.WriteString("]")
 
 	case sym:
-		fmt.Fprintf(buf, "<sym %v t%d>", v.k, v.t.ID)
+		fmt.Fprintf(buf, "<sym %s>", v.t.String())
 
 	case symstr:
 		buf.WriteString("<symstr ")
